@@ -23,7 +23,8 @@ def oracle(prop, tr, eng, scn, err):
         fails += L.check_c03(tr, eng, scn, err)
         if err:
             return fails
-    if prop == 'C01':
+    if prop in ('C01', 'C04'):
+        # C04: what a process is shown is the committed state = every update due at or before that instant and no other
         fails += L.check_c01(tr, eng, scn, final_forced)
         # observable form: accumulating variable at each emit == sum of updates applied up to then
         fails += observable_c01(tr, eng, scn)
@@ -89,8 +90,8 @@ def main():
                        'in_known_region_F-C03-shrink': L.in_shrink_region(tr),
                        'in_known_region_F-C12-sametime': L.in_sametime_region(tr)})
         return
-    n = a.n or {'quick': {'C01': 500, 'C02': 400, 'C03': 500, 'C12': 300},
-                'thorough': {'C01': 12000, 'C02': 8000, 'C03': 10000, 'C12': 5000}}[a.tier][prop]
+    n = a.n or {'quick': {'C01': 500, 'C02': 400, 'C03': 500, 'C12': 300, 'C04': 300},
+                'thorough': {'C01': 12000, 'C02': 8000, 'C03': 10000, 'C12': 5000, 'C04': 5000}}[a.tier][prop]
     rng = random.Random(a.seed * 7919 + hash(prop) % 1000)
     rng = random.Random('%s-%s' % (a.seed, prop))
     evaluations = 0
@@ -99,6 +100,8 @@ def main():
     samples = []
     known = []
     edge = L.edge_schedules()
+    if prop in ('C03', 'C02'):
+        edge = edge + L.precision_edge_schedules()
     if a.tier == 'quick':
         pass                               # the family is small: run all of it in both tiers
     for i in range(n + len(edge)):
@@ -129,7 +132,7 @@ def main():
                              'failed': fails[:3]})
             if len(failures) >= 3:
                 break
-    if prop == 'C02' and not failures:
+    if prop in ('C02', 'C01') and not failures:
         # the timestep a process REQUESTS is the one it is handed, also when the process runs in its own OS process:
         # adaptive-timestep scenarios run serially and with one process parallel must hand over the same timesteps
         prng = random.Random('%s-parallel' % a.seed)
@@ -138,7 +141,8 @@ def main():
         while done < (4 if a.tier == 'quick' else 40) and tries < 2000:
             tries += 1
             scn = L.gen_schedule(prng, a.tier)
-            scripted = [p['name'] for p in scn['procs'] if p.get('dts') and len(set(p['dts'])) > 1]
+            scripted = [p['name'] for p in scn['procs'] if (p.get('dts') and len(set(p['dts'])) > 1) or
+                        (prop == 'C01' and p['cond'] not in ('always', 'flag'))]
             if not scripted or scn.get('flipper'):
                 continue
             done += 1
